@@ -169,8 +169,25 @@ def run(ctx):
         for x in runs:
             for k in gc:
                 gc[k] += (x.get("gc") or {}).get(k, 0)
+    asan = {"runs": 0, "reports": 0}
+    if not ctx.quick:
+        ajobs = []
+        sel = progs[:160] + progs[-len(KERNELS):]
+        for i, p in enumerate(sel):
+            specs = [dict(s2) for s2 in run_specs(ctx.seed * 5 + i, True)]
+            for s2 in specs:
+                s2.pop("quarantine", None)
+            ajobs.append({"id": "asan%04d" % i, "files": {"main.abra": p["src"]}, "runs": specs})
+        ares, asan["runs"], asan["reports"] = vlib.asan_slice(ctx, ajobs, "asan-capture")
+        for p, j in zip(sel, ajobs):
+            res = ares.get(j["id"], {})
+            if res.get("compile", {}).get("ok") and "crash" not in res:
+                for cls, what in judge_prog(p, res, j["runs"]):
+                    if cls == "isolation":
+                        ctx.direct.append(("%s asan-build %s isolation" % (PROP, vlib.hhex(p["src"])[:10]), what + "\n--- program ---\n" + p["src"], dict(j, asan=True)))
     ctx.coverage(
-        evaluations=evals,
+        asan_build=asan,
+        evaluations=evals + asan["runs"],
         distinct_nontrivial=len(distinct),
         rule="evaluation = one execution of a capture program under one (budget plan, collection plan) with the quarantine monitor on; "
              "distinct = programs with at least one completed run whose whole output was compared with the deep-copy-at-spawn model",
